@@ -8,6 +8,8 @@ mkdir -p "$D"
 [ -f "$D/dkim_rsa.pem" ] || openssl genrsa -traditional -out "$D/dkim_rsa.pem" 2048 2>/dev/null
 [ -f "$D/dkim_rsa1024.pem" ] || openssl genrsa -traditional -out "$D/dkim_rsa1024.pem" 1024 2>/dev/null
 [ -f "$D/dkim_ed25519.b64" ] || head -c 32 /dev/urandom | base64 > "$D/dkim_ed25519.b64"
+# a root that signed nothing (C06: an added root must not bring the platform's roots back)
+[ -f "$D/ca2.pem" ] || openssl req -x509 -newkey rsa:2048 -nodes -keyout /dev/null -out "$D/ca2.pem" -days 36500 -subj "/CN=lvh unrelated root" -addext "basicConstraints=critical,CA:TRUE" >/dev/null 2>&1
 [ -f "$D/good.pem" ] && [ -f "$D/expired.pem" ] && exit 0
 cd "$D"
 W="$(mktemp -d "$D/tmp.XXXXXX")"
